@@ -17,7 +17,7 @@ namespace Spec
 inductive ColType where
   | named (n : String)
   | mixed (extra : String) (base : ColType)
-  deriving Repr, BEq, DecidableEq, Inhabited
+  deriving Repr, DecidableEq, Inhabited
 
 structure SCtx where
   enums : Enums
